@@ -28,13 +28,15 @@ structure Attrs where
   isStart : Option Bool := none
   isFinal : Option Bool := none
   label : Option Val := none               -- a state node carries `label=state.value`; a text is a `.str`
+  initialStack : Option (List Char) := none  -- `initial_stack`: JSON text of the start stack symbol (hidden node only)
 deriving DecidableEq, Repr
 
 /-- `dict.update`: keys given override, other keys stay -/
 def Attrs.update (old new : Attrs) : Attrs :=
   { isStart := new.isStart.orElse fun _ => old.isStart
     isFinal := new.isFinal.orElse fun _ => old.isFinal
-    label := new.label.orElse fun _ => old.label }
+    label := new.label.orElse fun _ => old.label
+    initialStack := new.initialStack.orElse fun _ => old.initialStack }
 
 structure Graph (L : Type) where
   nodes : List (Val × Attrs) := []
@@ -124,7 +126,7 @@ def PDA.toNetworkx (J : Json) (P : PDA) : Graph (List Char) :=
     let g1 := g.addNode q { isStart := some (decide (some q = P.start)), isFinal := some (decide (q ∈ P.finals)), label := some q }
     if some q = P.start then addMarker g1 q else g1) {}
   let g := match P.startStack with
-    | some z => g.addNode hiddenStack { label := some (.str (String.ofList (J.dumps z))) }
+    | some z => g.addNode hiddenStack { label := some (.str (String.ofList (J.dumps z))), initialStack := some (J.dumps z) }
     | none => g
   P.delta.foldl (fun g t =>
     g.addEdge t.1 t.2.2.2.1 (some (LabelCodec.pdaLabel (J.dumps t.2.1) (J.dumps t.2.2.1) (J.dumpsL t.2.2.2.2)))) g
@@ -144,7 +146,7 @@ def allSome {α : Type} : List (Option α) → Option (List α)
   | some a :: rest => (allSome rest).map (a :: ·)
 
 /-- `PDA.from_networkx` (after the repairs: no node is skipped because of its name; a node carrying `is_final`
-is a state).  `set_start_state` is called for every node marked as start: the last one stays. -/
+is a state; the start stack symbol is read from the attribute `initial_stack` of the hidden node).  `set_start_state` is called for every node marked as start: the last one stays. -/
 def PDA.fromNetworkx (J : Json) (g : Graph (List Char)) : Option PDA :=
   match allSome (g.edges.filterMap fun e => e.2.2.map fun l => PDA.readEdge J e.1 e.2.1 l) with
   | none => none
@@ -154,10 +156,16 @@ def PDA.fromNetworkx (J : Json) (g : Graph (List Char)) : Option PDA :=
     let finals := (g.nodes.filter fun n => n.2.isFinal.getD false).map (·.1)
     let stack : Option (Option Val) :=
       if g.hasNode hiddenStack then
-        match (g.attrs hiddenStack).label with
-        | some (.str txt) => (J.loads txt.toList).map some   -- `none` = not JSON (ValueError)
-        | some (.int _) => none                              -- TypeError
-        | none => none                                       -- KeyError 'label'
+        match (g.attrs hiddenStack).initialStack with
+        | some txt => (J.loads txt).map some                   -- `none` = not JSON (ValueError)
+        | none =>
+          -- a graph written before the attribute existed: the label of the decoration node; a node that
+          -- carries `is_final` is a state called INITIAL_STACK_HIDDEN, not the decoration
+          if (g.attrs hiddenStack).isFinal.isSome then some none else
+          match (g.attrs hiddenStack).label with
+          | some (.str txt) => (J.loads txt.toList).map some
+          | some (.int _) => none                              -- TypeError
+          | none => none                                       -- KeyError 'label'
       else some none
     stack.map fun z =>
       { states := (ts.flatMap fun t => [t.1, t.2.2.2.1]) ++ stateNodes ++ starts
